@@ -7,6 +7,16 @@ package main
 // (error identity class, panic class, returned bytes, Len/String/Bytes); expected outcomes come
 // from the specification.  A lock-step comparison of the two implementations runs alongside as
 // a cross-check and is written to a third file.
+//
+// Ownership of byte slices.  The caller side of the contract is played as well: the runner keeps
+// (bufPool, at most `hold` entries, oldest forgotten first) the very slices / strings the calls
+// hand out - never a copy of them - and the slices it passed to Write / WriteString, logs their
+// current contents after every step ("hv") and stores through them ("Poke", "Fill", and the
+// immediate overwrite of a Write argument, "scr").  Which of them must still be intact is decided
+// by the specification (`held` in spec/Buffer.tla): copies (ReadBytes, ReadString, String, Read,
+// Write arguments) for ever, aliases (Bytes, Next) until the next modifying call - at that moment
+// the runner drops them, exactly as the model does, so that nothing bytes.Buffer leaves undefined
+// is ever looked at.
 
 import (
 	"bytes"
@@ -20,6 +30,7 @@ import (
 	"runtime"
 	"strconv"
 	"strings"
+	"unsafe"
 
 	"github.com/hedzr/logg/slog"
 )
@@ -72,6 +83,10 @@ type bufOp struct {
 	Cap    int    `json:"cap"`    // New(how=cap): capacity of the slice handed over
 	WA     int    `json:"wa"`     // WriteTo: how many bytes the writer accepts (short/err)
 	Fixed  bool   `json:"fixed"`  // replayed from a recording: take the arguments as they are
+	Keep   bool   `json:"keep"`   // the caller keeps the slice / string the call hands out (Write: its argument)
+	H      int    `json:"h"`      // Poke / Fill: which kept slice (1 = oldest)
+	J      int    `json:"j"`      // Poke: slice[J-1] = N
+	Hold   int    `json:"hold"`   // New: how many results the caller keeps
 }
 
 type bufBehaviour struct {
@@ -143,6 +158,9 @@ func (r *scriptedReader) Read(p []byte) (int, error) {
 			r.chunks = r.chunks[1:]
 		}
 		r.delivered = append(r.delivered, p[:n]...)
+		for i := n; i < len(p) && i < n+96; i++ {
+			p[i] = 0xEE // io.Reader: "it may use all of p as scratch space during the call"
+		}
 		if len(r.chunks) == 0 {
 			switch r.fin {
 			case "eofdata":
@@ -220,8 +238,94 @@ type bufResult struct {
 	hasM   bool
 	rb     []byte
 	hasB   bool
+	// what the caller could keep: the returned slice / string itself, or the argument it passed
+	tag string // own / str / bytes / next
+	raw []byte
+	str string
+	arg bool // raw is the argument of Write / WriteString
 	// collaborator side
 	extra func(e *evw)
+}
+
+// ---------------------------------------------------------------- the caller's kept slices
+
+type bufHandle struct {
+	tag string
+	b   []byte // the slice itself, never a copy
+	s   string // tag "str": the string itself
+}
+
+func (h *bufHandle) value() []byte {
+	if h.tag == "str" {
+		return []byte(h.s)
+	}
+	return h.b
+}
+
+func (h *bufHandle) alias() bool { return h.tag == "bytes" || h.tag == "next" }
+
+type bufPool struct {
+	hs  []*bufHandle
+	cap int
+}
+
+// the calls that do not modify the buffer; every other call ends the window of every alias
+func bufModifies(op string) bool {
+	switch op {
+	case "Len", "Bytes", "String", "NilString", "Poke", "Fill":
+		return false
+	}
+	return true
+}
+
+func (p *bufPool) endWindows() {
+	k := 0
+	for _, h := range p.hs {
+		if !h.alias() {
+			p.hs[k] = h
+			k++
+		}
+	}
+	for i := k; i < len(p.hs); i++ {
+		p.hs[i] = nil
+	}
+	p.hs = p.hs[:k]
+}
+
+func (p *bufPool) push(h *bufHandle) {
+	if p.cap <= 0 {
+		return
+	}
+	if len(p.hs) >= p.cap {
+		copy(p.hs, p.hs[1:])
+		p.hs = p.hs[:len(p.hs)-1]
+	}
+	p.hs = append(p.hs, h)
+}
+
+func (p *bufPool) total() int {
+	n := 0
+	for _, h := range p.hs {
+		n += len(h.b) + len(h.s)
+	}
+	return n
+}
+
+func (p *bufPool) get(k int) *bufHandle {
+	if k < 1 || k > len(p.hs) {
+		return nil
+	}
+	return p.hs[k-1]
+}
+
+const bufKeepMax = 64 // longer results are not kept (log volume)
+
+// bufScribble overwrites a slice the caller owns, and appends into whatever spare capacity it has
+func bufScribble(b []byte) {
+	for i := range b {
+		b[i] = ^b[i]
+	}
+	_ = append(b[:len(b):cap(b)], 0x5A)
 }
 
 func (a *bufResult) same(b *bufResult) bool {
@@ -277,8 +381,13 @@ func panicClass(v any) string {
 
 type evw struct{ b []byte }
 
-func (e *evw) begin()           { e.b = append(e.b[:0], '{') }
-func (e *evw) key(k string)     { e.sep(); e.b = append(e.b, '"'); e.b = append(e.b, k...); e.b = append(e.b, '"', ':') }
+func (e *evw) begin() { e.b = append(e.b[:0], '{') }
+func (e *evw) key(k string) {
+	e.sep()
+	e.b = append(e.b, '"')
+	e.b = append(e.b, k...)
+	e.b = append(e.b, '"', ':')
+}
 func (e *evw) sep() {
 	if len(e.b) > 1 {
 		e.b = append(e.b, ',')
@@ -316,6 +425,24 @@ func (e *evw) ints(k string, v []int) {
 	}
 	e.b = append(e.b, ']')
 }
+func (e *evw) pool(k string, p *bufPool) {
+	e.key(k)
+	e.b = append(e.b, '[')
+	for n, h := range p.hs {
+		if n > 0 {
+			e.b = append(e.b, ',')
+		}
+		e.b = append(e.b, '[')
+		for i, c := range h.value() {
+			if i > 0 {
+				e.b = append(e.b, ',')
+			}
+			e.b = strconv.AppendInt(e.b, int64(c), 10)
+		}
+		e.b = append(e.b, ']')
+	}
+	e.b = append(e.b, ']')
+}
 func (e *evw) end(out *traceOut) {
 	e.b = append(e.b, '}', '\n')
 	out.bw.Write(e.b)
@@ -339,7 +466,7 @@ func unclipCount(n int) int {
 }
 
 // run executes op on x and returns the projected result.  The op's arguments are written into e.
-func bufExec(x bufAPI, op *bufOp, e *evw) (res *bufResult) {
+func bufExec(x bufAPI, op *bufOp, e *evw, pool *bufPool) (res *bufResult) {
 	res = &bufResult{}
 	e.str("op", op.Op)
 	e.num("n", op.N)
@@ -352,12 +479,20 @@ func bufExec(x bufAPI, op *bufOp, e *evw) (res *bufResult) {
 	case "Write":
 		p := toBytes(op.B)
 		e.bytes("b", p)
+		res.tag, res.raw, res.arg = "own", p, true
 		n, err := x.Write(p)
 		res.rn, res.hasN, res.err = n, true, errClass(err)
 	case "WriteString":
 		p := toBytes(op.B)
 		e.bytes("b", p)
-		n, err := x.WriteString(string(p))
+		// The string shares p's bytes.  It is dead once WriteString has returned, so that the
+		// caller may reuse p afterwards - unless the callee kept the string.
+		var str string
+		if len(p) > 0 {
+			str = unsafe.String(unsafe.SliceData(p), len(p))
+		}
+		res.tag, res.raw, res.arg = "own", p, true
+		n, err := x.WriteString(str)
 		res.rn, res.hasN, res.err = n, true, errClass(err)
 	case "WriteByte":
 		res.err = errClass(x.WriteByte(byte(op.N)))
@@ -370,13 +505,15 @@ func bufExec(x bufAPI, op *bufOp, e *evw) (res *bufResult) {
 		res.rn, res.hasN, res.err = n, true, errClass(err)
 		res.hasB = true
 		if n >= 0 && n <= len(p) {
-			res.rb = p[:n]
+			res.rb = append([]byte(nil), p[:n]...)
+			res.tag, res.raw = "own", p[:n]
 		}
 	case "Next":
 		res.hasB = true // present in the log only when the call returns
 		b := x.Next(op.N)
 		res.rb = append([]byte(nil), b...)
 		res.err = "nil"
+		res.tag, res.raw = "next", b
 	case "ReadByte":
 		c, err := x.ReadByte()
 		res.rn, res.hasN, res.err = int(c), true, errClass(err)
@@ -390,9 +527,11 @@ func bufExec(x bufAPI, op *bufOp, e *evw) (res *bufResult) {
 	case "ReadBytes":
 		b, err := x.ReadBytes(byte(op.N))
 		res.rb, res.hasB, res.err = append([]byte(nil), b...), true, errClass(err)
+		res.tag, res.raw = "own", b
 	case "ReadString":
 		s, err := x.ReadString(byte(op.N))
 		res.rb, res.hasB, res.err = []byte(s), true, errClass(err)
+		res.tag, res.str = "str", s
 	case "Truncate":
 		res.err = "nil"
 		x.Truncate(op.N)
@@ -450,9 +589,30 @@ func bufExec(x bufAPI, op *bufOp, e *evw) (res *bufResult) {
 	case "Len":
 		res.rn, res.hasN, res.err = x.Len(), true, "nil"
 	case "Bytes":
-		res.rb, res.hasB, res.err = append([]byte(nil), x.Bytes()...), true, "nil"
+		b := x.Bytes()
+		res.rb, res.hasB, res.err = append([]byte(nil), b...), true, "nil"
+		res.tag, res.raw = "bytes", b
 	case "String":
-		res.rb, res.hasB, res.err = []byte(x.String()), true, "nil"
+		s := x.String()
+		res.rb, res.hasB, res.err = []byte(s), true, "nil"
+		res.tag, res.str = "str", s
+	case "Poke": // not a call of the buffer: the caller stores through a slice it kept
+		e.num("h", op.H)
+		e.num("j", op.J)
+		res.err = "nil"
+		h := pool.get(op.H)
+		if h == nil || h.tag == "str" || op.J < 1 || op.J > len(h.b) {
+			panic("worker: Poke outside the kept slice")
+		}
+		h.b[op.J-1] = byte(op.N)
+	case "Fill":
+		e.num("h", op.H)
+		res.err = "nil"
+		h := pool.get(op.H)
+		if h == nil || h.tag != "own" {
+			panic("worker: Fill of a slice the caller does not own")
+		}
+		bufScribble(h.b)
 	case "NilString": // String() on a nil receiver (documented for bytes.Buffer); does not touch x
 		var str string
 		switch x.(type) {
@@ -544,6 +704,7 @@ type bufRunner struct {
 	rng                   *rand.Rand
 	trace                 int
 	e                     evw
+	pools                 [2]*bufPool // what the caller keeps of PrintCtx's / bytes.Buffer's results
 }
 
 // A corrupted buffer may panic in String/Bytes/Len themselves; that is an observation like any
@@ -567,8 +728,11 @@ func bufSafeContents(x bufAPI) (s, b []byte, ok bool) {
 	return []byte(x.String()), append([]byte(nil), x.Bytes()...), true
 }
 
-func (r *bufRunner) observe(x bufAPI, e *evw, full bool) {
+func (r *bufRunner) observe(x bufAPI, e *evw, full bool, pool *bufPool) {
 	e.num("len", bufSafeLen(x))
+	if full || pool.total() <= 160 {
+		e.pool("hv", pool)
+	}
 	if full {
 		s, b, ok := bufSafeContents(x)
 		if !ok {
@@ -612,22 +776,44 @@ func (r *bufRunner) step(pc, bb bufAPI, op *bufOp, obs string, last bool, idx in
 			out = r.outBB
 		}
 		e := &r.e
+		pool := r.pools[k]
 		e.begin()
-		res := bufExec(x, op, e)
+		res := bufExec(x, op, e, pool)
+		// the caller's side: a modifying call ends the window of every alias it kept; then the new
+		// result (or the argument) is kept, or - the argument of a write - overwritten at once
+		if bufModifies(op.Op) {
+			pool.endWindows()
+		}
+		if op.Op != "Poke" && op.Op != "Fill" {
+			kept := false
+			if op.Keep && res.pan == "" && res.tag != "" {
+				if n := len(res.raw) + len(res.str); n > 0 && n <= bufKeepMax {
+					pool.push(&bufHandle{tag: res.tag, b: res.raw, s: res.str})
+					kept = true
+				}
+			}
+			e.boolean("keep", kept)
+			if res.arg {
+				if !kept {
+					bufScribble(res.raw)
+				}
+				e.boolean("scr", !kept)
+			}
+		}
 		res.write(e)
 		switch obs {
 		case "every":
-			r.observe(x, e, x.Len() <= 96 || last || sampled)
+			r.observe(x, e, bufSafeLen(x) <= 96 || last || sampled, pool)
 		default:
 			if last || idx%16 == 15 {
-				r.observe(x, e, true)
+				r.observe(x, e, true, pool)
 			}
 		}
 		e.end(out)
 		results[k] = res
 	}
 	// lock-step cross-check
-	same := results[0].same(results[1]) && bufSafeLen(pc) == bufSafeLen(bb)
+	same := results[0].same(results[1]) && bufSafeLen(pc) == bufSafeLen(bb) && r.samePools()
 	if same && (bufSafeLen(pc) <= 256 || last || idx%8 == 0) {
 		ps, pb, ok1 := bufSafeContents(pc)
 		bs, bbb, ok2 := bufSafeContents(bb)
@@ -656,8 +842,24 @@ func (r *bufRunner) step(pc, bb bufAPI, op *bufOp, obs string, last bool, idx in
 		bs, _, _ := bufSafeContents(bb)
 		e.bytes("pc_s", clipBytes(ps))
 		e.bytes("bb_s", clipBytes(bs))
+		e.pool("pc_hv", r.pools[0])
+		e.pool("bb_hv", r.pools[1])
 		e.end(r.outLock)
 	}
+}
+
+// samePools: the slices the caller kept of either implementation hold the same bytes
+func (r *bufRunner) samePools() bool {
+	a, b := r.pools[0], r.pools[1]
+	if len(a.hs) != len(b.hs) {
+		return false
+	}
+	for i := range a.hs {
+		if a.hs[i].tag != b.hs[i].tag || !bytes.Equal(a.hs[i].value(), b.hs[i].value()) {
+			return false
+		}
+	}
+	return true
 }
 
 func clipBytes(b []byte) []byte {
@@ -669,6 +871,7 @@ func clipBytes(b []byte) []byte {
 
 func (r *bufRunner) begin(nw *bufOp, init []byte) {
 	r.trace++
+	r.pools = [2]*bufPool{{cap: nw.Hold}, {cap: nw.Hold}}
 	for _, out := range []*traceOut{r.outPC, r.outBB} {
 		e := &r.e
 		e.begin()
@@ -677,6 +880,7 @@ func (r *bufRunner) begin(nw *bufOp, init []byte) {
 		e.bytes("b", init)
 		e.str("how", nw.How)
 		e.num("cap", nw.Cap)
+		e.num("hold", nw.Hold)
 		e.bytes("nb", toBytes(nw.B))
 		e.end(out)
 	}
@@ -719,8 +923,9 @@ func bufferMain(args []string) int {
 // ---------------------------------------------------------------- seeded random driver
 
 type bufGen struct {
-	rng     *rand.Rand
-	profile string
+	rng      *rand.Rand
+	profile  string
+	pokedNxt bool // the last step stored into the result of Next
 }
 
 var bufTokens = [][]byte{
@@ -991,8 +1196,81 @@ func (g *bufGen) afterRead(x bufAPI) bufOp {
 	return bufOp{Op: "ReadString", N: g.delim(x)}
 }
 
-func (g *bufGen) next(x bufAPI, prev string) bufOp {
+// storeOp: the caller writes through one of the slices it kept (own copy or live alias)
+func (g *bufGen) storeOp(pool *bufPool, alias bool) (bufOp, bool) {
 	rng := g.rng
+	var cand []int
+	for i, h := range pool.hs {
+		if h.tag != "str" && h.alias() == alias && len(h.b) > 0 {
+			cand = append(cand, i)
+		}
+	}
+	if len(cand) == 0 {
+		return bufOp{}, false
+	}
+	k := cand[rng.Intn(len(cand))]
+	h := pool.hs[k]
+	if !alias && rng.Intn(2) == 0 {
+		return bufOp{Op: "Fill", H: k + 1}, true
+	}
+	j := len(h.b)
+	switch rng.Intn(5) {
+	case 0:
+		j = 1
+	case 1, 2:
+		j = 1 + rng.Intn(len(h.b))
+	}
+	t := bufTokens[rng.Intn(len(bufTokens))]
+	g.pokedNxt = h.tag == "next" && j == len(h.b)
+	return bufOp{Op: "Poke", H: k + 1, J: j, N: int(t[rng.Intn(len(t))])}, true
+}
+
+// keepIt: does the caller keep what this call hands out
+func (g *bufGen) keepIt(op string) bool {
+	pct := 0
+	switch op {
+	case "ReadBytes", "ReadString":
+		pct = 85
+	case "Bytes", "Next":
+		pct = 70
+	case "Read":
+		pct = 50
+	case "String":
+		pct = 30
+	case "Write", "WriteString":
+		pct = 20
+	}
+	return pct > 0 && g.rng.Intn(100) < pct
+}
+
+func (g *bufGen) next(x bufAPI, prev string, pool *bufPool) bufOp {
+	op := g.next1(x, prev, pool)
+	if pool.cap > 0 {
+		op.Keep = g.keepIt(op.Op)
+	}
+	return op
+}
+
+func (g *bufGen) next1(x bufAPI, prev string, pool *bufPool) bufOp {
+	rng := g.rng
+	if g.pokedNxt { // what was stored into the consumed region shows when the read point steps back
+		g.pokedNxt = false
+		if rng.Intn(10) < 7 {
+			return bufOp{Op: "UnreadByte"}
+		}
+	}
+	if len(pool.hs) > 0 {
+		if rng.Intn(100) < 40 {
+			if op, ok := g.storeOp(pool, true); ok {
+				return op
+			}
+		}
+		if rng.Intn(100) < 7 {
+			if op, ok := g.storeOp(pool, false); ok {
+				return op
+			}
+		}
+	}
 	L := x.Len()
 	limit := 48
 	if g.profile != "small" {
@@ -1053,6 +1331,8 @@ func (r *bufRunner) runRandom(g *bufGen, rd *bufRandom) {
 		obs = "sparse"
 	}
 	steps := rd.MinLen + rng.Intn(rd.MaxLen-rd.MinLen+1)
+	nw.Hold = []int{0, 1, 2, 2, 3, 4, 4, 6, 8, 8}[rng.Intn(10)]
+	g.pokedNxt = false
 	withSubjects(&nw, func(pc, bb bufAPI, init []byte) {
 		r.begin(&nw, init)
 		prev := ""
@@ -1075,7 +1355,7 @@ func (r *bufRunner) runRandom(g *bufGen, rd *bufRandom) {
 			}
 		}()
 		for ; i < steps; i++ {
-			op := g.next(pc, prev)
+			op := g.next(pc, prev, r.pools[0])
 			r.step(pc, bb, &op, obs, i == steps-1, i)
 			prev = op.Op
 		}
